@@ -49,7 +49,7 @@ def contract_canary(name, target, old, new, expect, extra=None):
             ctx.notes.append("canary %s skipped: %s" % (name, e))
             # pattern absent (code was refactored): canary not applicable -> counts as killed-by-absence
             return [Obl("canary:%s/not-applicable" % name, target, "canary", str(e), status=REFUTED, backend="n/a")]
-        return [o for o in obls if re.search(expect, o.id)]
+        return obls
     return Canary(name, build, expect + "|not-applicable")
 
 
@@ -170,7 +170,7 @@ def link_evaluator(ctx):
         return r["failures"], {"evaluations": r["evaluations"], "sequences": r["sequences"], "bound": r["bound"]}
     out.append(bounded_obl("bounded:evaluator/lifecycle-histories", "pyab_experiment.experiment_evaluator:ExperimentEvaluator.recompile",
                            "every evaluator behaves like a fresh evaluator of its last accepted text after every bounded history",
-                           ("C11",), run_lc))
+                           ("C11", "C01"), run_lc))
     return out
 
 
@@ -211,8 +211,8 @@ class C10(Prop):
     explanation = "position is a function of the key alone (contract of deterministic_proba), interval index is a function of (u, c); monotonicity lemma over the contract"
 
     def links(self, ctx):
-        from vcore import links_gen
-        return [link_binning] + links_gen.links_for("C10")
+        from vcore import links_gen, links_misc
+        return [link_binning, links_misc.link_pipeline] + links_gen.links_for("C10")
 
     def canaries(self, ctx):
         t = BIN + "deterministic_choice"
@@ -358,8 +358,7 @@ def gen_canary(name, old, new, expect):
         except LookupError as e:
             ctx.notes.append("canary %s skipped: %s" % (name, e))
             return [Obl("canary:%s/not-applicable" % name, "generator", "canary", str(e), status=REFUTED, backend="n/a")]
-        obls = link_generator(ctx, mutate=mut, tag="~" + name)
-        return [o for o in obls if re.search(expect, o.id)]
+        return link_generator(ctx, mutate=mut, tag="~" + name)
     return Canary(name, build, expect + "|not-applicable")
 
 
@@ -373,8 +372,7 @@ def gram_canary(name, old, new, expect):
         except LookupError as e:
             ctx.notes.append("canary %s skipped: %s" % (name, e))
             return [Obl("canary:%s/not-applicable" % name, "grammar", "canary", str(e), status=REFUTED, backend="n/a")]
-        obls = link_grammar(ctx, mutate=mut, tag="~" + name)
-        return [o for o in obls if re.search(expect, o.id)]
+        return link_grammar(ctx, mutate=mut, tag="~" + name)
     return Canary(name, build, expect + "|not-applicable")
 
 
@@ -391,8 +389,7 @@ def gram_table_canary(name, edit, expect):
         c2 = _MiniCtx()
         c2.cache["parser_tables"] = T
         c2.reg, c2.tier = ctx.reg, ctx.tier
-        obls = link_grammar(c2, tag="~" + name)
-        return [o for o in obls if re.search(expect, o.id)]
+        return link_grammar(c2, tag="~" + name)
     return Canary(name, build, expect + "|not-applicable")
 
 
@@ -406,8 +403,7 @@ def model_canary(name, old, new, expect):
         except LookupError as e:
             ctx.notes.append("canary %s skipped: %s" % (name, e))
             return [Obl("canary:%s/not-applicable" % name, "models", "canary", str(e), status=REFUTED, backend="n/a")]
-        obls = link_models(ctx, mutate=mut, tag="~" + name)
-        return [o for o in obls if re.search(expect, o.id)]
+        return link_models(ctx, mutate=mut, tag="~" + name)
     return Canary(name, build, expect + "|not-applicable")
 
 
